@@ -762,6 +762,11 @@ return 1;""",
 
         if arg_typemap.PY_get:
             fmt.PY_get = wformat(arg_typemap.PY_get, fmt)
+            if (indirect_stmt == "scalar" and arg_typemap.c_to_cxx and
+                    self.language == "cxx"):
+                # Convert type like with enums.
+                fmt.PY_get = wformat(
+                    arg_typemap.c_to_cxx, util.Scope(fmt, c_var=fmt.PY_get))
         
         if arg_typemap.PYN_descr:
             # class
